@@ -95,6 +95,7 @@ func c07(r *ev.Run) {
 		}
 	}
 	c07RefreshTriggers(r)
+	c07ConcurrentReconnect(r)
 	r.Require("histories_judged", int64(reps*len(c07Faults)*3/4))
 	r.Require("new_connections_after_fault", int64(reps*3))
 }
@@ -603,4 +604,84 @@ func c07RefreshTriggers(r *ev.Run) {
 		}
 	}
 	r.Require("refresh_trigger_scenarios_converged", int64(reps*2))
+}
+
+// c07ConcurrentReconnect: the connection to a reachable backend is lost and several clients need that backend at the same moment,
+// while the new connection is still being established (the dial is stretched to 150 ms by a pause point). Every one of them must be
+// served over the new connection: the backend is reachable the whole time.
+func c07ConcurrentReconnect(r *ev.Run) {
+	s, err := startSUT(r, false, 60000, 20)
+	if err != nil {
+		r.Internal("start sut: %v", err)
+		return
+	}
+	defer s.Close()
+	cl, err := fakecluster.New(2, 0)
+	if err != nil {
+		r.Internal("fakecluster: %v", err)
+		return
+	}
+	defer cl.Close()
+	cl.AssignContiguous()
+	cl.LogArgs = false
+	svc, err := startRedisSvc(s, cl, cl.Addrs(), RedisOpts{ConnTimeout: time.Second})
+	if err != nil || !svc.WaitRouting(1, 10*time.Second) {
+		r.Internal("service did not start: %v", err)
+		return
+	}
+	node := cl.Nodes[0]
+	keys := keysFor(cl, node, 16, "cr")
+	reps := 4
+	if r.Tier == "thorough" {
+		reps = 25
+	}
+	const hook = "redis.upstream.create_client.after_dial"
+	for rep := 0; rep < reps; rep++ {
+		nc := 4 + rep%5
+		conns := make([]*rclient.Conn, 0, nc)
+		for i := 0; i < nc; i++ {
+			c, err := svc.Dial()
+			if err != nil {
+				r.Internal("dial: %v", err)
+				return
+			}
+			defer c.Close()
+			if _, err := c.DoS(5*time.Second, "SET", keys[i], "v"); err != nil {
+				r.Internal("warm-up: %v", err)
+				return
+			}
+			conns = append(conns, c)
+		}
+		s.HookArm(hook, sutc.HookAction{Mode: "sleep", SleepUs: 150000, Times: 1})
+		node.KillConns(rep%2 == 0)
+		time.Sleep(30 * time.Millisecond) // the proxy has noticed the loss
+		type res struct {
+			i   int
+			v   resp.Value
+			err error
+		}
+		out := make(chan res, nc)
+		for i, c := range conns {
+			go func(i int, c *rclient.Conn) {
+				v, err := c.DoS(5*time.Second, "GET", keys[i])
+				out <- res{i, v, err}
+			}(i, c)
+		}
+		var failed []string
+		for range conns {
+			x := <-out
+			if x.err != nil || x.v.Kind == resp.Error {
+				failed = append(failed, fmt.Sprintf("client %d: %s %v", x.i, x.v.String(), x.err))
+			}
+		}
+		s.HookRelease(hook)
+		if len(failed) > 0 {
+			r.Violation("C07:error-while-reachable:concurrent-requests-during-reconnect", fmt.Sprintf("%d of %d requests issued while the connection to a reachable backend was being re-established got an error", len(failed), nc),
+				map[string]interface{}{"clients": nc, "failed": failed, "connection_lost_by": map[bool]string{true: "reset", false: "close"}[rep%2 == 0], "dial_stretched_to": "150 ms"})
+		} else {
+			r.Count("concurrent_reconnects_all_served", 1)
+		}
+		r.Case(fmt.Sprintf("concurrent-reconnect/n%d", nc))
+	}
+	r.Require("concurrent_reconnects_all_served", 2)
 }
